@@ -247,7 +247,7 @@ class Fn:
     def __init__(self, unit, name, params, ret, body_toks):
         self.u, self.name = unit, name
         self.params, self.ret = params, (ty_of(ret) if ret else None)
-        self.stmts, self.tail = P(body_toks).body()
+        self.stmts, self.tail = getattr(self, 'PARSER', P)(body_toks).body()
         self.env = {}            # rust name -> ('var', lean name, type) | ('arr', [lean names], width) | ('carr', [ints], width) | ('nat', lean name)
         self.muts = []           # (rust name) of &mut params, in order
         self.sig = []
@@ -586,7 +586,8 @@ class Fn:
         outs = []
         if self.result is not None:
             t, ty = self.expr(self.result, self.ret)
-            outs.append(t)
+            if t is not None:
+                outs.append(t)
         for m in self.muts:
             v = self.env[m]
             outs += v[1] if v[0] == "arr" else [v[1]]
@@ -646,6 +647,8 @@ def generate(repo, out_dir, write):
                     parts.append(Unit(ns, os.path.join(repo, rel), wanted).lean())
             if "uniform_int" in members:
                 parts.append(uniform_int(repo)[0])
+            if "xoshiro" in members:
+                parts.append(generator_objects(repo))
             parts.append("end Urandom.Generated.Scalar\n")
             text = "\n".join(parts)
         except (TranslateError, KeyError, IndexError, ValueError, StopIteration) as e:
@@ -655,7 +658,7 @@ def generate(repo, out_dir, write):
         write(os.path.join(out_dir, fname + ".lean"), text)
 
 
-if __name__ == "__main__":
+if __name__ == "__main__" and len(sys.argv) == 1:
     repo = os.environ.get("VERIF_REPO", "/repo")
     for ns, rel, wanted in UNITS:
         print(Unit(ns, os.path.join(repo, rel), wanted).lean())
@@ -845,3 +848,139 @@ def uniform_int(repo):
 
 if __name__ == "__main__" and "--uniform" in sys.argv:
     print(uniform_int(os.environ.get("VERIF_REPO", "/repo"))[0])
+
+
+# ------------------------------------------------------------------------------------------------ generator objects: Rng impl methods, from_seed
+GEN_FILES = {"splitmix": ("src/rng/splitmix64.rs", "SplitMix64", [("id", "u64")]),
+             "wyrand": ("src/rng/wyrand.rs", "Wyrand", [("id", "u64")]),
+             "xoshiro": ("src/rng/xoshiro256.rs", "Xoshiro256", [("op", "["), ("id", "u64"), ("op", ";"), ("num", 4), ("op", "]")])}
+METHODS = {"splitmix": ["next_u32", "next_u64", "jump"], "wyrand": ["next_u32", "next_u64", "jump"],
+           "xoshiro": ["next_u32", "next_u64", "next_f32", "next_f64", "jump"]}
+
+
+def despace_self(toks):
+    """`self.state` -> the variable `state` (the generators are structs with the one field `state`)"""
+    out, i = [], 0
+    while i < len(toks):
+        if toks[i:i + 3] == [("id", "self"), ("op", "."), ("id", "state")]:
+            out.append(("id", "state"))
+            i += 3
+        else:
+            out.append(toks[i])
+            i += 1
+    return out
+
+
+class ObjFn(Fn):
+    """functions that use generator objects: `T::from_seed(e)` is an object whose state is what T's constructor stores, `obj.next_u64()` is T's
+    translated method on that state (rebinding it), `Random::wrap(T { state: e })` / `T { state }` is the state itself"""
+
+    def __init__(self, unit, name, params, ret, body_toks, world):
+        self.world = world
+        Fn.__init__(self, unit, name, params, None, body_toks)
+        self.ret = None
+
+    def typed(self, e):
+        if e[0] == "call" and e[1].startswith("util::"):
+            return ("u", WIDTH["u32" if e[1].endswith("f32") else "u64"])
+        return Fn.typed(self, e)
+
+    def expr(self, e, expect=None):
+        k = e[0]
+        if k == "call" and e[1] == "Random::wrap":
+            return self.expr(e[2][0], expect)
+        if k == "struct":
+            (fname, fe), = e[2]
+            return self.expr(fe if fe is not None else ("id", fname), expect)
+        if k == "call" and e[1].endswith("::from_seed") and e[1].split("::")[0] in [v[1] for v in GEN_FILES.values()]:
+            g = next(n for n, v in GEN_FILES.items() if v[1] == e[1].split("::")[0])
+            arg, ty = self.expr(e[2][0], ("u", 64))
+            return "(Urandom.Generated.Scalar.%s.from_seed %s)" % (g, arg), ("obj", g)
+        if k == "call" and e[1].startswith("util::"):
+            a, _ = self.expr(e[2][0], ("u", 32 if e[1].endswith("f32") else 64))
+            return "(Urandom.Generated.Scalar.util.%s (%s))" % (e[1].split("::")[1], a), ("u", 32 if e[1].endswith("f32") else 64)
+        if k == "mcall" and e[1][0] == "id" and e[1][1] in self.env and self.env[e[1][1]][0] == "var" and self.env[e[1][1]][2][0] == "obj":
+            v = self.env[e[1][1]]
+            g = v[2][1]
+            if e[2] not in METHODS[g]:
+                raise TranslateError("method %s of %s" % (e[2], g))
+            self.tmp = getattr(self, "tmp", 0) + 1
+            r = "r%d" % self.tmp
+            self.lines.append("let (%s, %s) := Urandom.Generated.Scalar.%s.m_%s %s" % (r, v[1], g, e[2], v[1]))
+            return r, ("u", 32 if e[2].endswith("32") else 64)
+        if k == "array":
+            parts = [self.expr(x, ("u", 64)) for x in e[1]]
+            return "(" + ", ".join(p[0] for p in parts) + ")", ("tuple", [p[1] for p in parts])
+        return Fn.expr(self, e, expect)
+
+    def run(self, stmts):
+        for s in stmts:
+            if s[0] == "let" and s[1][0] == "pid":
+                t, ty = self.expr(s[2])
+                self.env[s[1][1]] = ("var", s[1][1], ty)
+                self.lines.append("let %s := %s" % (s[1][1], t))
+            else:
+                Fn.run(self, [s])
+
+
+class SP(P):
+    """+ struct literals `T { field: e }` / `T { field }`"""
+
+    def primary(self):
+        t = self.peek()
+        if t[0] == "id" and t[1][:1].isupper() and self.peek(1) == ("op", "{") and self.peek(2)[0] == "id" and self.peek(3) in (("op", ":"), ("op", "}")):
+            name = self.eat("id")
+            self.eat("op", "{")
+            fields = []
+            while not self.at("}"):
+                f = self.eat("id")
+                v = None
+                if self.at(":"):
+                    self.eat("op")
+                    v = self.expr()
+                fields.append((f, v))
+                if self.at(","):
+                    self.eat("op")
+            self.eat("op", "}")
+            return ("struct", name, fields)
+        return P.primary(self)
+
+    def block(self):
+        self.eat("op", "{")
+        j = matching(self.t, self.i - 1)
+        inner = SP(self.t[self.i:j])
+        self.i = j + 1
+        return ("block",) + inner.body()
+
+
+ObjFn.PARSER = SP
+
+
+def generator_objects(repo):
+    """per generator: the Rng impl methods as functions of the state (`m_<name> state = (result, state')`, `m_jump state = state'`) and `from_seed`"""
+    out = []
+    for g, (rel, tyname, state_ty) in GEN_FILES.items():
+        path = os.path.join(repo, rel)
+        raw, consts = parse_fns(open(path).read())
+        unit = next(Unit(ns, os.path.join(repo, r), wanted) for ns, r, wanted in UNITS if ns.endswith("." + g))
+        out.append("namespace %s" % g)
+        for m in METHODS[g]:
+            cands = [f for f in raw.get(m, []) if f[0] and f[0][0][0] == "self"]
+            if len(cands) != 1:
+                raise TranslateError("%s: method %s not found (or not unique)" % (rel, m))
+            params, ret, body = cands[0]
+            fn = ObjFn(unit, "m_" + m, [("state", state_ty, True)], ret, despace_self(body), None)
+            fn.ret = ty_of(ret) if ret else None
+            out.append(fn.lean())
+        cands = [f for f in raw.get("from_seed", []) if not (f[0] and f[0][0][0] == "self")]
+        if len(cands) != 1:
+            raise TranslateError("%s: from_seed not found" % rel)
+        params, ret, body = cands[0]
+        fn = ObjFn(unit, "from_seed", [(p[0], p[1], False) for p in params], None, body, None)
+        out.append(fn.lean())
+        out.append("end %s\n" % g)
+    return "\n".join(out)
+
+
+if __name__ == "__main__" and "--objects" in sys.argv:
+    print(generator_objects(os.environ.get("VERIF_REPO", "/repo")))
